@@ -5,6 +5,7 @@ package c12
 import (
 	"bytes"
 	"fmt"
+	"io"
 	"os"
 	"path/filepath"
 	"sort"
@@ -40,6 +41,8 @@ type Case struct {
 	Twice bool `json:",omitempty"`
 	// FromFile: the file is read with smf.ReadTracks(path, ...) instead of ReadTracksFrom(reader, ...)
 	FromFile bool `json:",omitempty"`
+	// ExportFirst: the value behind the reader is exported once (SMF().WriteTo) before it is played
+	ExportFirst bool `json:",omitempty"`
 }
 
 type sent struct {
@@ -265,6 +268,13 @@ func playOnce(c Case, run int, trd **smf.TracksReader, rec *recorder, outs []*fa
 				*trd = smf.ReadTracksFrom(bytes.NewReader(file), c.Select...)
 			}
 		}
+		if c.ExportFirst && run == 0 {
+			if f := (*trd).SMF(); f != nil {
+				if _, err := f.WriteTo(io.Discard); err != nil {
+					panic(fmt.Sprintf("exporting the file that was read: %v", err))
+				}
+			}
+		}
 		rec.start = time.Now()
 		if c.UsePlay {
 			*perr = (*trd).Play(outs[0])
@@ -452,6 +462,7 @@ func genCase(t *rapid.T) Case {
 	c.UsePlay = rapid.IntRange(0, 3).Draw(t, "usePlay?") == 0
 	c.Twice = rapid.IntRange(0, 4).Draw(t, "playTwice?") == 0
 	c.FromFile = rapid.IntRange(0, 3).Draw(t, "fromFile?") == 0
+	c.ExportFirst = rapid.IntRange(0, 4).Draw(t, "exportBeforePlaying?") == 0
 	if !c.UsePlay {
 		c.Ports = map[int]int{}
 		if rapid.IntRange(0, 3).Draw(t, "default?") > 0 {
@@ -470,7 +481,7 @@ func genCase(t *rapid.T) Case {
 }
 
 var play = ev.NewCheck("C12", "playback",
-	"rapid: format-1 files with 1..5 tracks; 1..6 grid ticks recur in every track with 0..14 events each (one file in fifteen has a crowded tick with 100..300 events of every track) (so ticks are shared within and across tracks and the concatenation of the tracks is not ordered by time), off-grid notes, metas, sysex and tempo changes sprinkled in; resolution 960 with tempi making one tick 1..50 us, now and then far below one microsecond (in one case of five no tempo event at tick 0, i.e. 120 BPM until the first later tempo event), whole file <= ~25 ms; one file in 25 is a ritardando of 150..400 tempo steps of 300..600 us per quarter from 30 BPM at resolution 15360 (each step within 0.01 BPM of its predecessor, 5..12 % in total) with a few notes at long distances after it (about 0.3 s); channel messages of all seven kinds (note-on also with velocity 0), each unique by its bytes; Play(out) or MultiPlay with explicit, default (-1) and missing port mappings; optional track selection; read with ReadTracksFrom or (one case of four) from a temporary file with ReadTracks; in one case of five the same TracksReader is played a second time and both runs are checked; oracle on recording fake out ports (instant = time.Since(start) inside Send): every channel message of a selected, mapped track exactly once on its port, no meta event ever, per-track send order == file order, global order non-decreasing in scheduled time (exact tempo-map integral), no send before its scheduled time; sysex filtered from the comparison; non-trivial = >= 2 selected tracks, > 12 messages and a tick shared by >= 2 events of one track and by another track; distinct by case hash",
+	"rapid: format-1 files with 1..5 tracks; 1..6 grid ticks recur in every track with 0..14 events each (one file in fifteen has a crowded tick with 100..300 events of every track) (so ticks are shared within and across tracks and the concatenation of the tracks is not ordered by time), off-grid notes, metas, sysex and tempo changes sprinkled in; resolution 960 with tempi making one tick 1..50 us, now and then far below one microsecond (in one case of five no tempo event at tick 0, i.e. 120 BPM until the first later tempo event), whole file <= ~25 ms; one file in 25 is a ritardando of 150..400 tempo steps of 300..600 us per quarter from 30 BPM at resolution 15360 (each step within 0.01 BPM of its predecessor, 5..12 % in total) with a few notes at long distances after it (about 0.3 s); channel messages of all seven kinds (note-on also with velocity 0), each unique by its bytes; Play(out) or MultiPlay with explicit, default (-1) and missing port mappings; optional track selection; read with ReadTracksFrom or (one case of four) from a temporary file with ReadTracks; in one case of five the same TracksReader is played a second time and both runs are checked; in one case of five the value behind the reader is exported once (SMF().WriteTo) before it is played; oracle on recording fake out ports (instant = time.Since(start) inside Send): every channel message of a selected, mapped track exactly once on its port, no meta event ever, per-track send order == file order, global order non-decreasing in scheduled time (exact tempo-map integral), no send before its scheduled time; sysex filtered from the comparison; non-trivial = >= 2 selected tracks, > 12 messages and a tick shared by >= 2 events of one track and by another track; distinct by case hash",
 	genCase, run)
 
 func TestPropPlayback(t *testing.T) { play.Rapid(t, 150, 2000) }
